@@ -349,7 +349,26 @@ func call_{{SFX}}(t testing.TB, c vCall, idx int) {
 			}
 		}
 	}
+	direct := func() {
+		cfg := vconfig(c)
+		switch c.API {
+		case "snap":
+			DirectSnapshot(cfg, rec, c.Val)
+		case "json":
+			DirectJSON(cfg, rec, vinput(c))
+		case "yaml":
+			DirectYAML(cfg, rec, vinput(c))
+		case "ssnap":
+			DirectStandalone(cfg, rec, c.Val)
+		default:
+			DirectStandaloneJSON(cfg, rec, vinput(c))
+		}
+	}
 	switch c.Via {
+	case "direct-nontest":
+		direct()
+	case "direct-nontest-helper":
+		ViaHelper(direct)
 	case "helper":
 		ViaHelper(do)
 	case "helper2":
@@ -432,9 +451,45 @@ func runTB_{{SFX}}(t testing.TB, sub func(name string, f func(t *testing.T))) {
 
 const tmplHelper = `package {{PKG}}
 
+import (
+	"github.com/gkampitakis/go-snaps/snaps"
+)
+
 // ViaHelper lives in a non-test source file: a frame of this file lies between
 // the test function and the Match* call.
 func ViaHelper(f func()) { f() }
+
+// HelperT is what the snaps entry points need from a test handle.
+type HelperT interface {
+	Helper()
+	Skip(...any)
+	Skipf(string, ...any)
+	SkipNow()
+	Name() string
+	Error(...any)
+	Log(...any)
+	Cleanup(func())
+}
+
+// DirectSnapshot / DirectJSON / DirectStandalone: the Match* call statement itself
+// is in this non-test file, one shared call site for every test file that uses it
+// (noinline: real assertion helpers are too big to be inlined; an inlined helper
+// would have one call site per caller).
+//
+//go:noinline
+func DirectSnapshot(c *snaps.Config, t HelperT, v any) { c.MatchSnapshot(t, v) }
+
+//go:noinline
+func DirectJSON(c *snaps.Config, t HelperT, v any) { c.MatchJSON(t, v) }
+
+//go:noinline
+func DirectYAML(c *snaps.Config, t HelperT, v any) { c.MatchYAML(t, v) }
+
+//go:noinline
+func DirectStandalone(c *snaps.Config, t HelperT, v any) { c.MatchStandaloneSnapshot(t, v) }
+
+//go:noinline
+func DirectStandaloneJSON(c *snaps.Config, t HelperT, v any) { c.MatchStandaloneJSON(t, v) }
 `
 
 const tmplUtil = `package util
